@@ -2,6 +2,7 @@ import WhVerif.Util.Proto
 import WhVerif.Model.C07
 import WhVerif.Spec.C07
 import WhVerif.Model.C07Pipe
+import WhVerif.Model.C07Opts
 namespace WhVerif.Driver.C07
 open Lean WhVerif.Proto WhVerif.C07
 
@@ -57,6 +58,23 @@ def handlePipe (op : String) (j : Json) : Option Json :=
     | some sels, some qs =>
       let os : List SampleOut := sels.map (fun sel => ⟨[], [], sel⟩)
       some (ofNatList (qs.map (mergedCount os)))
+    | _, _ => some badInput
+  else if op == "c07.validate" then
+    -- the option glue of `whatshap phase`: the cap `run_whatshap` gets, or the first `parser.error` of `validate`
+    let b := fun k => (getBool? j k).getD false
+    match getIntList? j "internal_downsampling", getIntList? j "legacy_max_coverage" with
+    | some ks, some hs =>
+      let a : PhaseArgs := {
+        internalDownsampling := ks, legacyMaxCoverage := hs, reference := b "reference", noReference := b "no_reference",
+        ignoreReadGroups := b "ignore_read_groups", ped := b "ped", genmap := b "genmap",
+        chromosomes := (getNat? j "n_chromosomes").getD 0, samples := (getNat? j "n_samples").getD 0,
+        includeHomozygous := b "include_homozygous", distrustGenotypes := b "distrust_genotypes",
+        usePedSamples := b "use_ped_samples", phaseInputs := (getNat? j "n_phase_inputs").getD 1,
+        fullGenotyping := b "full_genotyping", indels := b "indels", rowLimit := getInt? j "row_limit",
+        heuristic := b "heuristic" }
+      match validateCap a with
+      | .ok k => some (Json.mkObj [("accepted", Json.bool true), ("cap", Json.num (JsonNumber.fromInt k))])
+      | .error e => some (Json.mkObj [("accepted", Json.bool false), ("error", Json.str e.text)])
     | _, _ => some badInput
   else none
 
